@@ -171,7 +171,17 @@ class Checker:
         return True
 
     def raising_validators(self, t):
-        return [v for v in t["validators"] if self.val.get(v) == "raise"]
+        """ids (name@provider) of the validators of t that raise under the current valuation."""
+        out = set()
+        for v in t["validators"]:
+            val = self.val.get(v)
+            for p in self.spec["validators"][v]["providers"]:
+                if p not in self.active:
+                    continue
+                pv = val.get(p) if isinstance(val, dict) else val
+                if pv == "raise":
+                    out.add(f"{v}@{p}")
+        return out
 
     def allowed_events(self, sid):
         seen = []
@@ -200,7 +210,7 @@ class Checker:
         t = ctx.cands[ctx.ci]
         raising = self.raising_validators(t)
         if raising:
-            if any(v.split("@")[0] in raising for v in ctx.seen_validators):
+            if bool(ctx.seen_validators & raising):
                 self.rej("C01.validator-aborts", f"{why} although validator {raising} of candidate t{t['i']} raised")
             self.rej("C01.validator-aborts", f"{why} although validator {raising} of candidate t{t['i']} raises (it was never evaluated)")
         if self.enabled(t):
@@ -298,7 +308,7 @@ class Checker:
             raising = self.raising_validators(t)
             need = self.validator_ids(t)
             if raising:
-                if not any(v.split("@")[0] in raising for v in ctx.seen_validators):
+                if not bool(ctx.seen_validators & raising):
                     self.rej("C01.validator-aborts", f"validator {raising} should raise for candidate t{t['i']} but was not evaluated")
                 ctx.failing = ("ValidatorError", "validators", None)
                 ctx.outcome = "validator"
@@ -365,7 +375,7 @@ class Checker:
                 need = self.validator_ids(t)
                 raising = self.raising_validators(t)
                 if raising:
-                    if any(v.split("@")[0] in raising for v in ctx.seen_validators):
+                    if bool(ctx.seen_validators & raising):
                         self._advance(ctx)
                     return
                 if need - ctx.seen_validators and not force_cond:
@@ -450,6 +460,7 @@ class Checker:
                 self.last_op = op
                 self.step_had_write = False
             if op == "construct":
+                self.ids = None
                 self.constructed_over_stored = ev.get("stored") is not None
             if "val" in ev and ev["val"] is not None:
                 self.val = ev["val"]
@@ -489,9 +500,12 @@ class Checker:
                     self._end_drain(ev, exc=exc)
                 elif exc is not None:
                     self.rej(f"{op}.raised", f"{op} raised {ev.get('exc')}: {ev.get('exc_msg')}")
+            if op == "construct" and ev.get("ids"):
+                self.ids = ev["ids"]
             if op == "add_listener" and not ev.get("exc"):
                 for p in ev.get("providers", []):
                     self.active.add(p)
+                self.stats["listeners_added_late"] = self.stats.get("listeners_added_late", 0) + len(ev.get("providers", []))
             if op == "probe":
                 self._probe(ev)
             if op == "write":
@@ -852,6 +866,13 @@ class Checker:
 
     def _check_view(self, ctx, ev):
         t = ctx.t
+        ids = getattr(self, "ids", None)
+        if ids and ev.get("mid") is not None:
+            if ev["mid"] != ids["sm"]:
+                self.rej("C12.instance-isolation", f"{ev['cb']}: injected machine is not this instance")
+            prov = self.cbs.get(ev["cb"], {}).get("provider")
+            if ev.get("sid") is not None and prov in ids and ev["sid"] != ids[prov]:
+                self.rej("C12.instance-isolation", f"{ev['cb']}: callback ran on another object than this instance's {prov}")
         if ev.get("event") != ctx.event:
             self.rej("C02.event-source-target", f"{ev['cb']}: injected event {ev.get('event')} != {ctx.event}")
         if ev.get("source") != t["src"] or ev.get("target") != t["dst"]:
@@ -951,13 +972,17 @@ class Checker:
                 t = ctx.cands[ctx.ci]
                 if gid in self.guard_ids(t) and (ev.get("t_dst") in (None, t["dst"])) and gid not in ctx.seen_guards:
                     raising = self.raising_validators(t)
-                    if raising and any(v.split("@")[0] in raising for v in ctx.seen_validators):
+                    if raising and bool(ctx.seen_validators & raising):
                         self.rej("C01.validator-aborts", f"guard {gid} evaluated after validator of t{t['i']} raised")
                     if ctx.phase == "validators" and self.validator_ids(t) - ctx.seen_validators:
                         self.soft("C02.order", f"guard {gid} evaluated before validators {sorted(self.validator_ids(t) - ctx.seen_validators)} of t{t['i']}")
                     ctx.seen_guards.add(gid)
                     if ev.get("event") not in (None, ctx.event):
                         self.rej("C02.event-source-target", f"guard {gid}: injected event {ev.get('event')} != {ctx.event}")
+                    return
+                if gid in self.guard_ids(t) and gid in ctx.seen_guards and (ev.get("t_dst") in (None, t["dst"])):
+                    # repeated evaluation of a (pure) guard: only outcomes are judged (H2)
+                    self.stats["repeated_guard_evals"] = self.stats.get("repeated_guard_evals", 0) + 1
                     return
                 # not a guard of this candidate: a later candidate (or, token-less, a later event)
                 if self.enabled(t) and not self.raising_validators(t) and tok is None and self.rtc:
@@ -984,9 +1009,13 @@ class Checker:
 
     def on_validator(self, ev):
         ctx = self.ctx
+        tok = ev.get("tok")
+        df = getattr(self, "drain_failing", None)
+        if df is not None and df.outcome == "validator" and tok in (None, df.tok):
+            self.stats["masked_siblings"] += 1   # sibling validator of the raising one (gather)
+            return
         if ctx is None:
             self.rej("C02.extra-callback", f"validator {ev['g']} outside processing")
-        tok = ev.get("tok")
         if tok is not None and tok != ctx.tok and self.rtc:
             self._locate_ctx_for(tok, "validator:" + ev["g"], ev)
             ctx = self.ctx
@@ -1022,7 +1051,13 @@ class Checker:
                 self._finish_ctx_rtc()
 
     def on_note(self, ev):
-        pass
+        if ev.get("what") == "instance-isolation":
+            self.rej("C12.instance-isolation", ev.get("detail"))
+        if ev.get("what") == "other-activity":
+            self.stats["other_instance_callbacks"] = self.stats.get("other_instance_callbacks", 0) + ev.get("callbacks", 0)
+            self.stats["other_instance_steps"] = self.stats.get("other_instance_steps", 0) + 1
+        if ev.get("what") == "bound-trigger-missing":
+            self.rej("C13.bound-events", f"bind_events_to did not bind the trigger of declared event {ev.get('event')} on a clash-free target")
 
     def on_cb_write(self, ev):
         """A callback wrote another valid value to the model field (external write in flight)."""
